@@ -29,10 +29,13 @@ type State struct {
 	heap map[string]Term
 	base *lazyBase
 	pc   Term
+	// rec: non-zero while this state descends from the scratch state on which the reads of an opaque spec function
+	// are being recorded
+	rec int
 }
 
 func (s *State) clone() *State {
-	n := &State{env: make(map[envKey]Term, len(s.env)), heap: make(map[string]Term, len(s.heap)), base: s.base, pc: s.pc}
+	n := &State{env: make(map[envKey]Term, len(s.env)), heap: make(map[string]Term, len(s.heap)), base: s.base, pc: s.pc, rec: s.rec}
 	for k, v := range s.env {
 		n.env[k] = v
 	}
@@ -60,6 +63,10 @@ type NamedTerm struct {
 }
 
 type VC struct {
+	opaqueReads    map[*FuncInfo][]string
+	recordReads    map[string]bool
+	recordID       int
+	recordOther    bool
 	typeInvChecked map[string]bool
 	prog           *Program
 	fi             *FuncInfo
@@ -565,6 +572,13 @@ func (vc *VC) baseGet(b *lazyBase, key, srt string) Term {
 }
 
 func (vc *VC) heapGet(st *State, key, srt string) Term {
+	if vc.recordReads != nil {
+		if st.rec == vc.recordID {
+			vc.recordReads[key] = true
+		} else {
+			vc.recordOther = true
+		}
+	}
 	if prev, ok := vc.heapSort[key]; ok && prev != srt {
 		vc.fail(token.NoPos, "heap key %s used at sorts %s and %s", key, prev, srt)
 	}
@@ -753,7 +767,7 @@ func (vc *VC) merge(states []*State) *State {
 
 func (vc *VC) merge2(a, b *State) *State {
 	c := a.pc // paths are mutually exclusive; under (or a.pc b.pc), a.pc selects a
-	out := &State{env: map[envKey]Term{}, heap: map[string]Term{}}
+	out := &State{env: map[envKey]Term{}, heap: map[string]Term{}, rec: a.rec}
 	out.pc = vc.define("pc", Or(a.pc, b.pc))
 	for k, va := range a.env {
 		vb, ok := b.env[k]
